@@ -81,12 +81,22 @@ func registerStubs(e *Engine) {
 			case pat.Pre == "^" && pat.Suf == "$":
 			case pat.Pre == "" && pat.Suf == "":
 				fn = "Munanchored"
+			case pat.Pre == "^" && pat.Suf == "":
+				fn = "Mprefix"
+			case pat.Pre == "" && pat.Suf == "$":
+				fn = "Msuffix"
 			default:
-				fn = "M_" + sanitize(pat.Pre+"_"+pat.Suf)
+				unsupported("regexp pattern %q + atom + %q", pat.Pre, pat.Suf)
 			}
 			pat.Pre, pat.Suf = "", ""
 		}
-		return e.uf(fn, []*Term{e.strID(pat), e.strID(subj)}, BoolSort)
+		args := []*Term{e.strID(pat), e.strID(subj)}
+		r := e.uf(fn, args, BoolSort)
+		if fn != "M" {
+			// a full match is in particular a prefix, suffix and substring match
+			e.axiom("anch|"+r.String(), Implies(e.uf("M", args, BoolSort), r))
+		}
+		return r
 	}
 	e.intr["(*regexp.Regexp).MatchString"] = match
 	e.intr["github.com/prometheus/common/model.ParseDuration"] = func(e *Engine, st *State, cc *ssa.CallCommon, a []Value) Value {
